@@ -47,7 +47,7 @@ impl Prop for C16 {
     fn assumptions(&self) -> Vec<String> {
         vec![
             "file sizes are a whole number of samples".into(),
-            "an infinite repeat of empty data is outside the domain (EOF is the only non-spinning answer)".into(),
+            "an infinite repeat of empty data is outside the domain as far as the answer goes (EOF is the only non-spinning one); only 'every call returns' is asserted there, with a 10 s watchdog".into(),
             "work() is not called again after it returned EOF (no runner does)".into(),
         ]
     }
@@ -117,7 +117,37 @@ fn run_source(case: &DripCase, ctx: &mut Ctx) {
         }
     };
     if repeat == 255 && data.is_empty() {
-        ctx.skip("infinite repeat of empty data (out of domain)");
+        // Nothing to repeat: what the block answers is outside the domain, but every call has
+        // to come back (a work() that never returns cannot be cancelled by any runner).  The
+        // calls run in a helper thread; ten seconds for twenty calls on an empty file is the
+        // only wall-clock bound in this check, five orders of magnitude above the usual cost.
+        static HUNG: std::sync::atomic::AtomicBool = std::sync::atomic::AtomicBool::new(false);
+        if HUNG.load(std::sync::atomic::Ordering::SeqCst) {
+            ctx.skip("a call on an empty source already failed to return in this run");
+            return;
+        }
+        ctx.class("empty data, infinite repeat: calls must return");
+        let c = case.clone();
+        let (tx, rx) = std::sync::mpsc::channel();
+        std::thread::spawn(move || {
+            let prep = prepare(&c);
+            let mut b = build_drip(&c, &prep);
+            for _ in 0..20 {
+                let blk = &mut b.block;
+                let _ = catch(|| blk.work().map(|_| ()));
+                for o in b.outs.iter_mut() {
+                    o.drain(usize::MAX);
+                }
+            }
+            let _ = tx.send(());
+        });
+        if rx.recv_timeout(std::time::Duration::from_secs(10)).is_err() {
+            HUNG.store(true, std::sync::atomic::Ordering::SeqCst);
+            ctx.fail(
+                format!("C16/work-never-returns/{name}"),
+                format!("{name} ({spec:?}): twenty work() calls on an empty source with infinite repeat did not come back within 10 s"),
+            );
+        }
         return;
     }
     ctx.class(format!("repeat={}", if repeat == 255 { "infinite".to_string() } else { repeat.to_string() }));
